@@ -1295,8 +1295,13 @@ def get_padded_extrema(X, pad_width=2, mode='peaks', parabolic_extrema=False,
 
     # Keep padding if the locations don't stretch to the edge
     while max(ret_max_locs) <= len(X) - 1 or min(ret_max_locs) >= 0:
+        span = (min(ret_max_locs), max(ret_max_locs))
         ret_max_locs = np.pad(ret_max_locs, pad_width, loc_pad_mode, **loc_pad_opts)
         ret_max_ext = np.pad(ret_max_ext, pad_width, mag_pad_mode, **mag_pad_opts)
+        if (min(ret_max_locs), max(ret_max_locs)) == span:
+            # This padding will never reach beyond the edges of the signal
+            raise ValueError('loc_pad_opts {0} do not extend the extrema locations '
+                             'beyond the edges of the signal'.format(dict(mode=loc_pad_mode, **loc_pad_opts)))
 
     return ret_max_locs, ret_max_ext
 
